@@ -28,6 +28,14 @@ pub fn class_of(type_name: &str) -> String {
     else { format!("other:{}", t.replace(' ', "")) }
 }
 
+/// what the hooks ask at every schedule point: the locks held there, plus (as `repeat:<type>` entries) the locks whose same
+/// instance the thread acquired more than once since its previous schedule point
+fn probe_locks() -> Vec<String> {
+    let mut held = lock_api::verif_log::held_by_current_thread();
+    for repeated in lock_api::verif_log::take_repeats() { held.push(format!("repeat:{}", repeated)); }
+    held
+}
+
 fn settled(ack: &Arc<tinylfu_cached::cache::command::acknowledgement::CommandAcknowledgement>) {
     // one poll by hand (the `poll` program of the table), then wait for the worker
     let waker = crate::noop_waker();
@@ -77,7 +85,7 @@ pub fn run(seed: u64, out: &str, millis: u64) -> bool {
     for (round, (shards, cmdcap, pool, buf, max)) in configs.iter().enumerate() {
         verif::reset(false, false);
         lock_api::verif_log::switch(true);
-        verif::set_held_probe(Some(lock_api::verif_log::held_by_current_thread));
+        verif::set_held_probe(Some(probe_locks));
         let clock = ManualClock(Arc::new(AtomicU64::new(1_000_000_000_000)));
         let config = ConfigBuilder::new(16, 16, *max)
             .clock(Box::new(clock.clone()))
@@ -160,8 +168,17 @@ pub fn run(seed: u64, out: &str, millis: u64) -> bool {
         writeln!(sink.implementation, "R ok").unwrap();
         writeln!(sink.input, "L tries {}", if tries.is_empty() { "-".to_string() } else { tries.join(",") }).unwrap();
         writeln!(sink.implementation, "R ok").unwrap();
+        let mut repeats: Vec<(String, String)> = Vec::new();
+        for (point, held) in verif::held_at_points() {
+            for entry in held.split(';') { if let Some(type_name) = entry.strip_prefix("repeat:") { repeats.push((point.to_string(), class_of(type_name))); } }
+        }
+        repeats.sort(); repeats.dedup();
+        for (point, class) in repeats {
+            writeln!(sink.input, "L repeat {} {}", point, class).unwrap();
+            writeln!(sink.implementation, "R ok").unwrap();
+        }
         let mut held_at: Vec<(String, String)> = verif::held_at_points().into_iter().map(|(point, held)| {
-            let mut classes: Vec<String> = held.split(';').filter(|h| !h.is_empty()).map(class_of).collect();
+            let mut classes: Vec<String> = held.split(';').filter(|h| !h.is_empty() && !h.starts_with("repeat:")).map(class_of).collect();
             classes.sort();
             (point.to_string(), classes.join(","))
         }).collect();
